@@ -38,9 +38,16 @@ def uaTags (items : List String) : List UA.Tag :=
       | _ => go rest cur acc
   go items none []
 
+/-- `src.*`: where state and error text come from (cases that went through the HTTP handlers with tracing) -/
+def parseSource (l : Line) : Option C11.Source :=
+  if !bool l "src" then none else
+  some { statePlain := bytesOf l "src.st.plain", stateRO := bytesOf l "src.st.ro", roHonoured := bool l "src.ro.honoured",
+         desc := if bool l "src.desc.traced" then some (bytesOf l "src.desc") else none,
+         code := if bool l "src.desc.traced" then some (str l "src.code").toUTF8.toList else none }
+
 def parseInput (l : Line) : C11.Input :=
   { uri := bytesOf l "uri", uriOK := bool l "u.ok", mode := str l "mode", rtype := str l "rtype", isError := bool l "err",
-    params := pairsOf (list l "p") }
+    params := pairsOf (list l "p"), source := parseSource l }
 
 def parseObserved (l : Line) : C11.Observed :=
   match str l "obs" with
@@ -58,7 +65,8 @@ def showMon (m : Option String) : String :=
 
 /-- short input class: kind / response kind / mode / URI shape / what was observed -/
 def classOf (l : Line) : String :=
-  s!"{str l "kind"}:{str l "sub"}:{if str l "mode" == "" then "default" else str l "mode"}:{str l "shape"}:{str l "obs"}"
+  let src := if bool l "src" then s!":{str l "src.router"}:{str l "src.channel"}:{str l "src.outcome"}:{str l "src.err.kind"}:{str l "src.err.class"}" else ""
+  s!"{str l "kind"}:{str l "sub"}:{if str l "mode" == "" then "default" else str l "mode"}:{str l "shape"}:{str l "obs"}{src}"
 
 def stepMon (l : Line) : String :=
   s!"case={str l "case"} class={classOf l} model=- observed={str l "obs"} monitor={showMon (monitorLine l)} agree=1"
